@@ -52,6 +52,7 @@ type Case struct {
 	Scale   string   `json:"scale,omitempty"` // informative (label only), scale histories: the count that is driven to a threshold-adjacent value
 	Build   string   `json:"build,omitempty"` // informative (label only), scale histories: how the bulk is built
 	Cfg     *Cfg     `json:"cfg,omitempty"` // configuration / environment of the teamserver (nil = the fixture's default)
+	Fault   *Fault   `json:"fault,omitempty"` // fault injection (fault_test.go): ONE event of the history runs while one dependency fails
 	Ops     []Op     `json:"ops"`
 }
 
@@ -207,6 +208,12 @@ func dormantAfterReopen(w *pvx.World) (map[pvx.LinkRow]bool, error) {
 }
 
 func invariants(w *pvx.World, after string, role func(int64) string, dormant map[pvx.LinkRow]bool) (obs, *core.Violation) {
+	return invariantsX(w, after, role, dormant, nil)
+}
+
+// invariantsX: the same with the excuses that a failed write on TS_Links itself earns (fault_test.go);
+// ex == nil: none.
+func invariantsX(w *pvx.World, after string, role func(int64) string, dormant map[pvx.LinkRow]bool, ex *excuses) (obs, *core.Violation) {
 	o := obs{parentOf: map[int64]int64{}, known: map[int64]bool{}}
 	ags := w.TS.Agents.Agents
 	for _, a := range ags {
@@ -288,8 +295,12 @@ func invariants(w *pvx.World, after string, role func(int64) string, dormant map
 			return o, core.V("db|duplicate-row|after="+after, "TS_Links holds the row (%08x,%08x) %d times\n%s", r.Parent, r.Child, n, dump(w))
 		}
 	}
+	ex.establish(o, rows, have, dormant)
 	for c, p := range o.parentOf {
 		if have[pvx.LinkRow{Parent: p, Child: c}] == 0 {
+			if ex.excused(c) {
+				continue
+			}
 			return o, core.V("db|missing-row|after="+after, "live link %08x -> %08x has no row in TS_Links (rows: %v)\n%s", p, c, showRows(rows), dump(w))
 		}
 	}
@@ -298,7 +309,7 @@ func invariants(w *pvx.World, after string, role func(int64) string, dormant map
 		storedParents[r.Child] = append(storedParents[r.Child], r.Parent)
 	}
 	for _, r := range rows { // in table order: deterministic
-		if ps := storedParents[r.Child]; len(ps) > 1 {
+		if ps := storedParents[r.Child]; len(ps) > 1 && !ex.excused(r.Child) {
 			return o, core.V("db|two-stored-parents|who="+role(r.Child)+"|after="+after, "TS_Links names %d parents for %08x (%08x and %08x): at most one stored parent per agent; the next restart takes the first (rows: %v)\n%s", len(ps), r.Child, ps[0], ps[1], showRows(rows), dump(w))
 		}
 	}
@@ -307,7 +318,7 @@ func invariants(w *pvx.World, after string, role func(int64) string, dormant map
 			delete(dormant, r) // live (again)
 			continue
 		}
-		if !dormant[r] {
+		if !dormant[r] && !ex.excused(r.Child) {
 			return o, core.V("db|stale-row|after="+after, "TS_Links holds (%08x,%08x) but that is not a live link (rows: %v)\n%s", r.Parent, r.Child, showRows(rows), dump(w))
 		}
 	}
@@ -320,6 +331,7 @@ func invariants(w *pvx.World, after string, role func(int64) string, dormant map
 	for r := range dormant {
 		o.dormant[r.Child] = r.Parent
 	}
+	ex.settle(o, storedParents)
 	return o, nil
 }
 
@@ -445,7 +457,18 @@ func checkCase(c Case) *core.Violation {
 		"on a database file that existed before this teamserver opened it (schema of the unchanged tree, harness/testdata/golden-schema.sql) the history violates the property, on a freshly created file it does not; tables whose definition differs: %v.\n[%s] %s", diff, v.Sig, v.Msg)
 }
 
+// runCase: a violation in a history whose faulted event was delivered carries the fault in its
+// signature (a finding that needs the fault is then named after it).
 func runCase(c Case, mode string) *core.Violation {
+	applied := false
+	v := runCase1(c, mode, &applied)
+	if v != nil && applied && c.Fault != nil && !strings.HasPrefix(v.Sig, "harness|") {
+		v.Sig += "|fault=" + c.Fault.opName() + ":" + c.Fault.How
+	}
+	return v
+}
+
+func runCase1(c Case, mode string, applied *bool) *core.Violation {
 	sweepOnce.Do(func() { pvx.SweepStale("c09") })
 	if len(c.IDs) == 0 {
 		return nil
@@ -490,6 +513,7 @@ func runCase(c Case, mode string) *core.Violation {
 	reqID := uint32(0x1000)
 	noRole := func(int64) string { return "other" }
 	dormant := map[pvx.LinkRow]bool{}
+	ex := newExcuses()
 
 	for _, i := range c.Init {
 		if i < 0 || i >= len(c.IDs) || w.Agent(c.IDs[i]) != nil {
@@ -500,7 +524,7 @@ func runCase(c Case, mode string) *core.Violation {
 			panic(fmt.Sprintf("harness: initial registration of %08x not acknowledged", c.IDs[i]))
 		}
 	}
-	pre, v := invariants(w, "init", noRole, dormant)
+	pre, v := invariantsX(w, "init", noRole, dormant, ex)
 	if v != nil {
 		return v
 	}
@@ -533,7 +557,7 @@ func runCase(c Case, mode string) *core.Violation {
 	checkpoint := func(step int) *core.Violation {
 		n := bulkLen
 		stale, bulkLen = false, 0
-		post, v := invariants(w, "bulk", noRole, dormant)
+		post, v := invariantsX(w, "bulk", noRole, dormant, ex)
 		if v != nil {
 			v.Msg = fmt.Sprintf("checkpoint before step %d, after a run of %d bulk events: %s", step, n, v.Msg)
 			return v
@@ -573,13 +597,22 @@ func runCase(c Case, mode string) *core.Violation {
 			}
 		}
 		if op.K == "reopen" {
+			// a restart builds the sessions' graph from the table.  While a failed write on TS_Links has
+			// left an agent with two stored parents, what the restore makes of them is not fixed: the
+			// history ends here.  Every other known disagreement ends with the restart (the graph is
+			// the table's from here on).
+			if end, err := ex.atReopen(w); err != nil {
+				return core.V("harness|cannot-read-links", "reading TS_Links: %v", err)
+			} else if end {
+				return nil
+			}
 			if err := w.Reopen(); err != nil {
 				return core.V("reopen|failed", "step %d: reopening the database file: %v", step, err)
 			}
 			if dormant, err = dormantAfterReopen(w); err != nil {
 				return core.V("harness|cannot-read-links", "reading TS_Links: %v", err)
 			}
-			post, v := invariants(w, "reopen", noRole, dormant)
+			post, v := invariantsX(w, "reopen", noRole, dormant, ex)
 			if v != nil {
 				v.Msg = fmt.Sprintf("step %d (reopen): %s", step, v.Msg)
 				return v
@@ -632,7 +665,23 @@ func runCase(c Case, mode string) *core.Violation {
 			return "other"
 		}
 
-		v := core.WithWatchdog(stepBudget, "event:"+class, func() *core.Violation {
+		// fault injection: this one event runs while one dependency fails; lifted before the oracle reads
+		budget, lift := stepBudget, func() {}
+		if c.Fault != nil && c.Fault.At == step {
+			before, err := pvx.LinkRows(w.SQL)
+			if err != nil {
+				return core.V("harness|cannot-read-links", "reading TS_Links: %v", err)
+			}
+			if lift, err = c.Fault.install(w, c); err != nil {
+				panic("harness: installing the fault: " + err.Error())
+			}
+			if c.Fault.How == "write-lock" { // every write statement of the event waits for sqlite's busy timeout (5 s) first
+				budget += time.Duration(2*len(pre.children(int64(actorID)))+6) * 5500 * time.Millisecond
+			}
+			ex.arm(c.Fault, c, before)
+			*applied = true
+		}
+		v := core.WithWatchdog(budget, "event:"+class, func() *core.Violation {
 			switch op.K {
 			case "reg":
 				if actor != nil {
@@ -678,16 +727,20 @@ func runCase(c Case, mode string) *core.Violation {
 			}
 			return nil
 		})
+		lift()
 		if v != nil {
 			if strings.HasPrefix(v.Sig, "hang|") {
 				release()
 			}
-			v.Msg = fmt.Sprintf("step %d (%+v, %s): %s", step, op, class, v.Msg)
+			v.Msg = fmt.Sprintf("step %d (%+v, %s%s): %s", step, op, class, ex.what(), v.Msg)
 			return v
 		}
 
-		post, v := invariants(w, class, role, dormant)
+		post, v := invariantsX(w, class, role, dormant, ex)
+		faultNote := ex.what()
+		ex.disarm()
 		if v != nil {
+			v.Msg = faultNote + v.Msg
 			if strings.HasPrefix(v.Sig, "cycle|") && os.Getenv("VERIF_C09_HANGPROBE") != "" {
 				// demonstration only (replays): show that the cycle makes the next task hang
 				hv := core.WithWatchdog(stepBudget, "task-after:"+class, func() *core.Violation {
@@ -808,6 +861,13 @@ type model struct {
 	rows   map[int]int  // TS_Links as the unchanged tree keeps it: child -> stored parent (survives restarts)
 	gone   map[int]bool // known once, not restored by a restart since
 	why    map[int]string // why an agent in memory is inactive: markdead | killdate | exit | disconnected (label only)
+	// fault injection (fault_test.go): what TS_Agents holds may differ from the sessions after a failed write
+	fault   *Fault       // the fault of the case, nil = none
+	idx     int          // index of the next event of the history
+	on      bool         // the event being applied is the one that runs under the fault
+	existed bool         // db.Existed() of the running teamserver
+	dbRow   map[int]bool // the agent has a row in TS_Agents
+	dbAct   map[int]bool // ... stored as active
 }
 
 // orphanOf: x is in memory without a parent while a stored row still names one; the stored
@@ -847,11 +907,13 @@ func (m *model) inner() []int {
 }
 
 func newModel(c Case) *model {
-	m := &model{n: len(c.IDs), known: map[int]bool{}, parent: map[int]int{}, active: map[int]bool{}, cut: map[int]bool{}, rows: map[int]int{}, gone: map[int]bool{}, why: map[int]string{}}
+	m := &model{n: len(c.IDs), known: map[int]bool{}, parent: map[int]int{}, active: map[int]bool{}, cut: map[int]bool{}, rows: map[int]int{}, gone: map[int]bool{}, why: map[int]string{},
+		fault: c.Fault, existed: c.dbMode() != "fresh", dbRow: map[int]bool{}, dbAct: map[int]bool{}}
 	for _, i := range c.Init {
 		if i >= 0 && i < len(c.IDs) {
 			m.known[i] = true
 			m.active[i] = true
+			m.dbRow[i], m.dbAct[i] = true, true
 		}
 	}
 	return m
@@ -998,10 +1060,17 @@ type summary struct {
 	inactNew, inactKnown, inactCyclic int
 	inactWhy                          map[string]int
 	foreign                           int // connects whose child package carries the magic of a third-party type
+	// fault injection
+	faultKind    string // kind of the event that ran under the fault (connect | disconnect | death | reg | markalive), "" = none was delivered
+	faultLinked  bool   // ... and it removed a live link (disconnect of a child, death of an agent with links or a parent) or replaced one
+	faultRestart bool   // a restart after the faulted event
+	faultEvents  int    // effective events after the faulted event
 }
 
 // step applies one event of the history to the model and records it in s.
 func (m *model) step(op Op, s *summary) {
+	m.on = m.fault != nil && m.fault.At == m.idx
+	m.idx++
 	if op.A < 0 || op.A >= m.n {
 		return
 	}
@@ -1016,12 +1085,18 @@ func (m *model) step(op Op, s *summary) {
 			}
 		}
 		for a := range m.known {
-			if !m.active[a] {
+			if modelDebug && m.fault == nil && m.active[a] != (m.dbRow[a] && m.dbAct[a]) {
+				panic(fmt.Sprintf("model: agent %d active=%v row=%v stored-active=%v without a fault", a, m.active[a], m.dbRow[a], m.dbAct[a]))
+			}
+			if !(m.dbRow[a] && m.dbAct[a]) { // (without a failed write on TS_Agents: the sessions that are inactive)
 				delete(m.known, a)
 				delete(m.cut, a)
 				m.gone[a] = true
+			} else {
+				m.active[a] = true
 			}
 		}
+		m.existed = true
 		m.parent = map[int]int{}
 		for ch, p := range m.rows {
 			if m.known[ch] && m.known[p] {
@@ -1030,6 +1105,9 @@ func (m *model) step(op Op, s *summary) {
 		}
 		s.classes["reopen"]++
 		s.reopens++
+		if s.faultKind != "" {
+			s.faultRestart = true
+		}
 		if dangling {
 			s.reopenDormant++
 		}
@@ -1051,6 +1129,8 @@ func (m *model) step(op Op, s *summary) {
 		if !m.known[op.A] {
 			m.known[op.A] = true
 			m.active[op.A] = true
+			m.add(op.A)
+			m.faulted(s, "reg")
 			delete(m.gone, op.A)
 			s.lastKind, s.lastInnerCut = "reg", false
 			s.classes["reg"]++
@@ -1071,6 +1151,9 @@ func (m *model) step(op Op, s *summary) {
 		}
 	}()
 	s.effective++
+	if s.faultKind != "" {
+		s.faultEvents++
+	}
 	if s.reopens > 0 && (op.K == "connect" || op.K == "disconnect" || op.K == "exit" || op.K == "killdate" || op.K == "markdead") {
 		s.eventsAfterReopen = true
 	}
@@ -1111,7 +1194,9 @@ func (m *model) step(op Op, s *summary) {
 			m.known[b] = true
 			m.active[b] = true
 			m.parent[b] = op.A
-			m.rows[b] = op.A
+			m.linkAdd(op.A, b)
+			m.add(b)
+			m.faulted(s, "connect")
 			if len(m.known) > s.maxKnown {
 				s.maxKnown = len(m.known)
 			}
@@ -1145,6 +1230,9 @@ func (m *model) step(op Op, s *summary) {
 			} else if ok {
 				cl = "connect-reparent"
 				s.reparent = true
+				if m.on {
+					s.faultLinked = true
+				}
 			} else {
 				cl = "connect-toplevel"
 			}
@@ -1159,8 +1247,11 @@ func (m *model) step(op Op, s *summary) {
 				}
 			}
 			m.parent[b] = op.A
-			m.rows[b] = op.A
+			m.linkAdd(op.A, b)
 			m.active[b] = true
+			m.store(b)
+			m.store(op.A)
+			m.faulted(s, "connect")
 			delete(m.cut, b)
 			if s.reconn == nil {
 				s.reconn = map[int]int{}
@@ -1205,6 +1296,9 @@ func (m *model) step(op Op, s *summary) {
 		default:
 			if cur, ok := m.parent[b]; ok && cur == op.A {
 				cl = "disconnect-child"
+				if m.on {
+					s.faultLinked = true
+				}
 				delete(m.parent, b)
 				m.cut[b] = true
 				s.lastInnerCut = m.nlinks(b) > 0
@@ -1212,10 +1306,12 @@ func (m *model) step(op Op, s *summary) {
 				cl = "disconnect-nonchild"
 				s.lastInnerCut = false
 			}
-			if p, ok := m.rows[b]; ok && p == op.A { // LinkRemove deletes the row (sender, named)
+			if p, ok := m.rows[b]; ok && p == op.A && !m.blocked("TS_Links", "DELETE", p, b) { // LinkRemove deletes the row (sender, named)
 				delete(m.rows, b)
 			}
 			m.active[b] = false // LinkRemove marks the named agent "Disconnected" either way
+			m.store(b)
+			m.faulted(s, "disconnect")
 			m.why[b] = "disconnected"
 		}
 	case "exit", "killdate", "markdead":
@@ -1223,13 +1319,14 @@ func (m *model) step(op Op, s *summary) {
 		if n > s.deathLinks {
 			s.deathLinks = n
 		}
-		if _, ok := m.parent[op.A]; ok {
+		_, hadParent := m.parent[op.A]
+		if hadParent {
 			s.deathWithParent = true
 			if n > 0 {
 				s.deathMid = true
 			}
 		}
-		if p, ok := m.parent[op.A]; ok && m.rows[op.A] == p {
+		if p, ok := m.parent[op.A]; ok && m.rows[op.A] == p && !m.blocked("TS_Links", "DELETE", p, op.A) {
 			delete(m.rows, op.A)
 		}
 		delete(m.parent, op.A)
@@ -1238,15 +1335,23 @@ func (m *model) step(op Op, s *summary) {
 		for ch, p := range m.parent {
 			if p == op.A {
 				delete(m.parent, ch)
-				if m.rows[ch] == op.A {
+				if m.rows[ch] == op.A && !m.blocked("TS_Links", "DELETE", p, ch) {
 					delete(m.rows, ch)
 				}
 				m.active[ch] = false
+				m.store(ch)
 				m.why[ch] = "disconnected"
 			}
 		}
+		m.store(op.A)
+		m.faulted(s, "death")
+		if m.on && (n > 0 || hadParent) {
+			s.faultLinked = true
+		}
 	case "markalive":
 		m.active[op.A] = true
+		m.store(op.A)
+		m.faulted(s, "markalive")
 	case "connectforeign":
 		s.foreign++
 	}
@@ -1358,6 +1463,7 @@ func classify(c Case) core.Class {
 	cl.Labels = append(cl.Labels, "effective-events:"+lb)
 	cl.Labels = append(cl.Labels, cfgLabels(c)...)
 	cl.Labels = append(cl.Labels, inactiveLabels(s)...)
+	cl.Labels = append(cl.Labels, faultLabels(c, s)...)
 	cl.NonTrivial = s.secondLink || s.reparent || s.selfc || s.ancc
 	cl.Fingerprint = fmt.Sprintf("2nd=%v|reparent=%v|self=%v|anc=%v|deathlinks=%s|childdeath=%v|len=%s|disc=%v|reopen=%v", s.secondLink, s.reparent, s.selfc, s.ancc, dl, s.deathWithParent, lb, s.classes["disconnect-child"] > 0, s.reopens > 0)
 	if s.maxDepth > 4 || s.ancFar {
@@ -1366,6 +1472,9 @@ func classify(c Case) core.Class {
 			db = ">=16"
 		}
 		cl.Fingerprint += fmt.Sprintf("|depth=%s|far=%v", db, s.ancFar)
+	}
+	if c.Fault != nil && s.faultKind != "" {
+		cl.Fingerprint += "|fault=" + c.Fault.How + ":" + c.Fault.Table
 	}
 	if s.reopenDormant > 0 {
 		cl.Fingerprint += fmt.Sprintf("|dormant|orphan=%v|again=%v", s.orphanConnect || s.orphanConnectLive || s.unrestoredConnect || s.orphanBackBelowParent, s.reopenAfterOrphanConnect)
